@@ -196,6 +196,13 @@ package rapid
 //@   ensures [C03,C08] implies(result, r.count == old(r.count) + 1 && old(r.count) < r.maxCount && r.group >= 0)
 //@   ensures [C03,C08] implies(!result, r.count == old(r.count) && r.count >= r.minCount)
 //@   ensures drawn > old(drawn)
+//   Replay discipline (C04, hence C01): the group of the previous element is closed as discarded iff that element was
+//   rejected; the new group starts as not rejected; the group that holds the stopping coin is kept (the pruned replay
+//   needs that word to stop at the same place).
+//@   ensures [C01,C04] !r.rejected
+//@   at s.endGroup#0 assert [C01,C04] arg0 == old(r.group) && arg1 == old(r.rejected)
+//@   at s.endGroup#1 assert [C01,C04] !arg1
+//@   at s.endGroup#2 assert [C01,C04] arg0 == r.group && !arg1
 //@   panics invalidData: drawn >= old(drawn)
 //@   modifies r.group, r.rejected, r.count, drawn, lastWord
 
@@ -479,17 +486,17 @@ package rapid
 
 //@ func (*T).fail
 //@   requires [C14] unlocked(t)
-//@   ensures [C02,C14] t.failed != ""
-//@   ensures [C02] !now && implies(msg != "", t.failed == stopTest(msg))
+//@   ensures [C02,C13,C14] t.failed != ""
+//@   ensures [C02,C13] !now && implies(msg != "", t.failed == stopTest(msg))
 //@   ensures [C14] unlocked(t)
-//@   panics stopTest [C02,C14]: now && t.failed != "" && strOf(panicval) == t.failed && unlocked(t)
+//@   panics stopTest [C02,C13,C14]: now && t.failed != "" && strOf(panicval) == t.failed && unlocked(t)
 //@   modifies t.failed, lockmode[addr(t.mu)]
 
 //@ func (*T).failOnError
 //@   requires [C14] unlocked(t)
-//@   ensures [C02] t.failed == ""
+//@   ensures [C02,C13] t.failed == ""
 //@   ensures [C14] unlocked(t)
-//@   panics stopTest [C02,C14]: t.failed != "" && strOf(panicval) == t.failed && unlocked(t)
+//@   panics stopTest [C02,C13,C14]: t.failed != "" && strOf(panicval) == t.failed && unlocked(t)
 //@   modifies lockmode[addr(t.mu)]
 
 //@ func (*T).skip
@@ -586,7 +593,11 @@ package rapid
 //@   ensures [C10,C11] fresh(result) && clean(result) && unlocked(result)
 //@   ensures [C04,C10] result.s == s && result.tbLog == tbLog && result.tb != nil && arr(result.cleanups) == nil
 
+// The failure site (C05) is the call stack from the panic up to, and excluding, rapid's own checkOnce frame: the
+// traceback loop stops at the frame whose function name ends with exactly this package-qualified name (a shorter
+// suffix would also stop at a user function that happens to be called checkOnce and merge distinct sites).
 //@ func panicToError
+//@   at strings.HasSuffix#0 assert [C05] arg1 == "pgregory.net/rapid.checkOnce" && arg0 == f.Function
 //@   ensures [assumed] implies(result != nil, result.traceback != "    <no error>\n")
 //@   ensures [C02] (result == nil) == (p == nil)
 //@   ensures [C02] implies(result != nil, fresh(result) && result.data == p)
@@ -607,8 +618,8 @@ package rapid
 //@   ensures [C02] implies(propFalsified && cleanupSkipped, result != nil && !isInvalidData(result.data))
 //@   requires [C10,C11] clean(t) && unlocked(t) && prop != nil
 //@   ensures [C10,C11] len(t.cleanups) == 0 && t.ctx == nil && t.cancelCtx == nil && !cleaning(t) && unlocked(t)
-//@   ensures [C02,C11] implies(result == nil, t.failed == "")
-//@   ensures [C02,C11] implies(result != nil && isInvalidData(result.data), t.failed == "")
+//@   ensures [C02,C11,C13] implies(result == nil, t.failed == "")
+//@   ensures [C02,C11,C13] implies(result != nil && isInvalidData(result.data), t.failed == "")
 //@   ensures [C02] implies(result != nil, fresh(result))
 //@   ensures [C05] implies(result != nil, result.traceback != "    <no error>\n")
 //@   ensures drawn >= old(drawn)
@@ -675,6 +686,10 @@ package rapid
 
 //@ func (*T).Repeat
 //@   noframe "calls user actions and the invariant"
+//   ... but of the T itself Repeat changes nothing beyond what user code may change through T's methods: no other
+//   state is kept on a T, which findBug re-uses for every test case (C11, and C04/C07: a test case is a function of
+//   its bit stream alone).
+//@   frame-only T [C04,C07,C11]
 //@   assumes-nonnil-calls "the actions map given to Repeat holds no nil functions"
 //@   requires [C08] t.failed == "" && unlocked(t)
 //@   requires [C08] pendingCheck
@@ -728,11 +743,25 @@ package rapid
 // ---------------------------------------------------------------------------------------------
 // persist.go
 
+// ioFailed: opening, scanning or parsing the file has reported an error (every such error makes the file unusable).
+//@ ghost ioFailed Bool
+
 //@ func loadFailFile
+//@   noframe "only the ghost ioFailed and freshly allocated slices are written"
+//@   defines !ioFailed
 //@   ensures [C17] implies(result3 == nil, len(now(split)) == 2)
 //@   ensures [C17] implies(result3 == nil, len(result2) == len(now(data)) - 1)
-//@   loop 0 invariant [C17] true
-//@   loop 1 invariant [C17] -1 <= rangeindex && rangeindex < len(data) - 1 && len(buf) == rangeindex + 1 && len(data) >= 1
+//@   ensures [C06,C17] implies(ioFailed, result3 != nil)
+//@   ensures [C06] implies(result3 == nil, result0 == now(split)[0] && result1 == parseUint(now(split)[1], 10))
+//@   ensures [C06] implies(result3 == nil, forall(k, 1, len(result2)+1, result2[k-1] == parseUint(now(data)[k], 0)))
+//@   modifies ioFailed
+//@   at os.Open#0 set ioFailed = result1 != nil
+//@   at scanner.Err#0 set ioFailed = ioFailed || result != nil
+//@   at strconv.ParseUint#0 set ioFailed = ioFailed || result1 != nil
+//@   at strconv.ParseUint#1 set ioFailed = ioFailed || result1 != nil
+//@   loop 0 invariant [C17] !ioFailed
+//@   loop 1 invariant [C17] -1 <= rangeindex && rangeindex < len(data) - 1 && len(buf) == rangeindex + 1 && len(data) >= 1 && !ioFailed
+//@   loop 1 invariant [C06,slow] forall(k, 1, len(buf)+1, buf[k-1] == parseUint(data[k], 0))
 
 //@ func checkFailFile
 //@   at checkOnce#1 assert [C01,C17] clean(arg0) && hasType(arg0.s, bufBitStream) && len(deref(arg0.s, bufBitStream).buf) == len(buf) && arr(deref(arg0.s, bufBitStream).buf) == arr(buf)
@@ -780,8 +809,13 @@ package rapid
 //@   ensures result1 != nil && flags.debugvis == old(flags.debugvis)
 //@   modifies heap, drawn, lockmode, cancelled
 
+// ffFalsified: the replay of a fail file has falsified the property (first replay failed with a real failure);
+// from then on no fresh random test case may be generated (C09), whatever the second replay says.
+//@ ghost ffFalsified Bool
+
 //@ func doCheck
 //@   noframe "runs the property"
+//@   defines !ffFalsified
 //@   requires [C09] 0 <= checks && checks <= math.MaxInt/10
 //@   requires [C17] prop != nil && !tbFailed && !searched && !sawFailure
 //@   ensures [C06,C17] implies(searched, result4 == "")
@@ -789,14 +823,20 @@ package rapid
 //@   ensures [C07] implies(searched && (result6 != nil || result7 != nil), result3 == lastInit)
 //@   ensures [C09] implies(result6 == nil && result7 == nil, searched && result3 == 0 && result4 == "")
 //@   ensures [C02,C17] tbFailed == old(tbFailed) && tbErrors == old(tbErrors)
-//@   modifies heap, drawn, runs, lastInit, searched, sawFailure, lockmode, cancelled
+//@   modifies heap, drawn, runs, lastInit, searched, sawFailure, lockmode, cancelled, ffFalsified
 //@   at findBug#0 assert [C17] seed == old(seed) && checks == old(checks) && !tbFailed
+//@   at checkFailFile#0 set ffFalsified = result1 != nil
+//@   at findBug#0 assert [C02,C09] !ffFalsified
 //@   at findBug#0 set searched = true
 //@   at newRandomBitStream#0 assert [C07] arg0 == lastInit && arg1
 //@   loop 0 invariant [C17] seed == old(seed) && checks == old(checks) && tbFailed == old(tbFailed) && tbErrors == old(tbErrors) && !searched && -1 <= rangeindex && rangeindex < len(failfiles)
+//@   loop 0 invariant [C02,C09] !ffFalsified
 
+// Without -rapid.seed the base seed is the Sum64 of a maphash.Hash allocated for this very call: a zero Hash picks
+// its random per-object seed lazily, so only a fresh object gives a fresh value (a recycled one repeats itself).
 //@ func baseSeed
 //@   ensures [C07,C18] implies(flags.seed != 0, result == flags.seed)
+//@   at (*maphash.Hash).Sum64#0 assert [C18] fresh(recv)
 
 // capturedOut: the backing array of the output captured by the most recent captureTestOutput in checkTB
 //@ ghost capturedOut Ref
